@@ -90,6 +90,9 @@ func (v *Vue) interpolateToWriter(ctx VueContext, w io.Writer, input string) err
 				if !helpers.IsVariablePath(expr) {
 					if result, evalErr := v.exprEval.Eval(expr, v.exprEnv(ctx)); evalErr == nil {
 						val = result
+					} else if strings.HasPrefix(expr, "!") {
+						// !x on a value that is not a boolean, as in a condition
+						val = v.evalNot(ctx, expr)
 					}
 				}
 			}
